@@ -365,9 +365,47 @@ def rekeying(rep: Report, prog: Program) -> None:
                   fi.where(lp))
 
 
+_BINARY = ("add", "sub", "mul", "truediv", "floordiv", "mod", "pow", "matmul")
+
+
+def operator_protocol(rep: Report, prog: Program, rid: str) -> None:
+    """R02.12: `a * b` asks a.__mul__(b) first and, if that *returns NotImplemented*, b.__rmul__(a).  The algebra is spread over
+    such pairs (Prefix.__rmul__ answers `unit * prefix`, Quantity.__rmul__ answers `unit * quantity`, Logarithm.__rmul__ ...),
+    so an operator that rejects an operand it does not know by raising TypeError itself cuts the other operand off: the
+    product exists in one order and raises in the other - no commutativity, no neutral element on that side."""
+    core = [ci for ci in prog.classes.values() if ci.module == ""]
+    reflected: Dict[str, List[str]] = {}
+    for ci in core:
+        for op in _BINARY:
+            if f"__r{op}__" in ci.methods or f"__r{op}__" in ci.aliases:
+                reflected.setdefault(op, []).append(ci.name)
+    n = 0
+    for ci in sorted(core, key=lambda c: c.name):
+        for op in _BINARY:
+            q = ci.methods.get(f"__{op}__")
+            if q is None:
+                continue
+            others = [c for c in reflected.get(op, []) if c != ci.name]
+            if not others:
+                continue
+            fi = prog.func(q)
+            raises = [r for r in Resolver._own_nodes(fi.node) if isinstance(r, ast.Raise) and r.exc is not None
+                      and ast.unparse(r.exc.func if isinstance(r.exc, ast.Call) else r.exc).split(".")[-1] in ("TypeError", "NotImplementedError")]
+            n += 1
+            rep.check(rid, f"{q}", not raises,
+                      f"{q} raises {ast.unparse(raises[0].exc)[:50] if raises else ''} for an operand it does not handle instead of returning NotImplemented: "
+                      f"the reflected operator of the right operand ({', '.join(c + '.__r' + op + '__' for c in others[:4])}) never gets its turn, so the "
+                      "operation works in one order of the operands and raises in the other", fi.where(raises[0]) if raises else fi.where())
+    if n == 0:
+        raise AnalysisError("no binary operator with a reflected counterpart found in the core module (R02.12 anchor moved)")
+
+
 def run(rep: Report) -> None:
     prog = Program()
     resolver = Resolver(prog)
+    rep.rule("R02.12", "operator protocol: a binary operator of the algebra classes rejects an unknown operand by returning NotImplemented, never by "
+             "raising TypeError itself (another class of the package defines the reflected operator)", floor=8)
+    operator_protocol(rep, prog, "R02.12")
     rep.rule("R02.11", "interned classes hash by identity, or over fields nothing assigns after construction", floor=5)
     rep.rule("R02.10", "no memoised operator distinguishes (or is keyed by) numeric types the cache key conflates: x ** 3 must not depend on an "
              "earlier x ** 3.0", floor=1)
